@@ -272,6 +272,9 @@ func (g *gen) stmt(last, noLocals bool) {
 		g.line("end")
 	case 16, 17: // generic for
 		nn := 1 + g.r.Intn(3)
+		if g.r.Chance(30) {
+			nn = 4 + g.r.Intn(5) // TFORLOOP's result range A+3..A+2+C reaches above the call temporaries
+		}
 		names := make([]string, nn)
 		for i := range names {
 			names[i] = g.id("k")
@@ -293,7 +296,23 @@ func (g *gen) stmt(last, noLocals bool) {
 			g.declare(n, kAny)
 		}
 		g.loops++
-		g.body(g.small())
+		switch g.r.Intn(6) {
+		case 0: // empty body: only TFORLOOP itself touches the loop variables
+		case 1:
+			g.ind++
+			g.line("break")
+			g.ind--
+		case 2:
+			g.ind++
+			g.line("if %s then break end", names[len(names)-1])
+			g.ind--
+		case 3:
+			g.ind++
+			g.line("%s = %s", names[0], names[len(names)-1])
+			g.ind--
+		default:
+			g.body(g.small())
+		}
 		g.loops--
 		g.fn.vars = g.fn.vars[:nv]
 		g.line("end")
